@@ -14,7 +14,7 @@ META = {
                                'window-hdf5', 'window-inline', 'permuted', 'extra-datasets', 'mapping', 'open-ended',
                                'frames-decoded', 'fastpath-permuted', 'fastpath-aligned', 'fastpath-view', 'fastpath-packed', 'same-data-object-reused',
                                'repeated-channel-names', 'repeated-channel-names-across-sets', 'paths-as-Path', 'int-cast-out-of-range', 'consecutive-windows-one-file',
-                               'index-channel-with-units']},
+                               'index-channel-with-units', 'permuted-dataset-names']},
     'exhaustive_windows': {'quick': ['all windows 0 <= from < to <= N for N = 4, every source kind'],
                            'thorough': ['all windows 0 <= from < to <= N for N in 1..6, every source kind x input chunk {None,1,2}']},
     'assumptions': ['origins carry explicit file_set_number and creation_time so that nothing random enters the bytes'],
@@ -40,6 +40,9 @@ def cases(tier, seed):
     # ONE DLISFile written several times with consecutive row windows (the data split over several files)
     for k in range(40 if tier == 'quick' else 1000):
         yield {'stratum': 'consecutive-windows-one-file', 'index': k, 'kind': 'consecutive'}
+    # dataset_name mappings that PERMUTE the names (channel A <- data set B, channel B <- data set A), equal dtypes and shapes
+    for k in range(30 if tier == 'quick' else 600):
+        yield {'stratum': 'permuted-dataset-names', 'index': k, 'kind': 'permuted-names'}
     # channel names repeated across the frames (and channel sets) of one logical file: every channel still gets its own data
     for k in range(40 if tier == 'quick' else 1000):
         yield {'stratum': 'repeated-channel-names', 'index': k, 'kind': 'repeated'}
@@ -213,6 +216,39 @@ def run_case(case):
                             'detail': f'window [{a},{z}) written from one DLISFile (windows {wins}, {src} source) differs from the fresh '
                                       f'write of the pre-sliced arrays at offset {d} (sizes {len(out)} / {len(refw.data)})'})
         sample = {'kind': 'consecutive windows', 'rows': N, 'source': src, 'windows': wins}
+    elif case['kind'] == 'permuted-names':
+        r = gen.rng(seed, PROP, case['stratum'], case['index'])
+        N = r.choice([3, 5, 8])
+        nch = r.choice([2, 3, 4])
+        dt = gen.dtstr(r.choice(['float64', 'float32', 'int32', 'uint16']), r.choice('<='))
+        shape = (N,) if r.random() < 0.6 else (N, r.choice([2, 3]))
+        base = gen.base_spec(r.choice([256, 8192]))
+        base['ops'].append(gen.origin_op())
+        names = [f'CH{j}' for j in range(nch)]
+        perm = names[:]
+        while perm == names:
+            r.shuffle(perm)
+        if nch > 2 and r.random() < 0.5:
+            perm[-1], names_last = perm[-1], None       # (some entries may stay in place)
+        for j, nm in enumerate(names):
+            # channel `nm` takes the data set called perm[j]; the inline reference gets that data set's content directly
+            src_j = names.index(perm[j])
+            base['ops'].append(gen.channel_op(nm, dt, shape, fill={'kind': 'pos', 'tag': 10 + src_j}, dataset_name=perm[j]))
+        base['ops'].append(gen.frame_op('F', list(range(1, nch + 1))))
+        base['write'] = {'source': 'inline', 'output_chunk_size': 2 ** 16}
+        ref = run(base)
+        bump('permuted-dataset-names')
+        if ref.data is not None:
+            evals += 1
+            oracle.check_frames(ref)
+            for v in ref.by_prop('C03'):
+                vio.append({'prop': PROP, 'kind': 'mapping-ignored', 'mech': 'rows:inline:' + v.mech, 'detail': v.detail, 'variant': base['write']})
+        for src in ['dict', 'struct', 'hdf5']:
+            sp = copy.deepcopy(base)
+            sp['write'].update({'source': src, 'perm_seed': None, 'extra': 0, 'input_chunk_size': r.choice(gen.chunk_choices(N)),
+                                'sort_fields': True})
+            compare(ref, sp, src, f'permuted-names:{src}', True, decode=True)
+        sample = {'kind': 'permuted dataset names', 'rows': N, 'mapping': dict(zip(names, perm)), 'dtype': dt, 'shape': shape}
     elif case['kind'] == 'repeated':
         r = gen.rng(seed, PROP, case['stratum'], case['index'])
         base = gen.frame_spec(r, sources=('inline',), nframes=r.choice([2, 2, 3]), layouts=('C', 'strided'), dataset_names=False,
